@@ -39,6 +39,7 @@ type c14aOp struct {
 	Kind string `json:"kind"` // hdr | blk | forged
 	Set  int    `json:"set"`  // forged: which set signs: 0 = set in force `Back` hand-overs ago, 1 = next announced set, 2 = foreign accounts, 3 = too few members of the right set
 	Back int    `json:"back"` // forged/0: how many hand-overs back (1..)
+	Via  int    `json:"via"`  // blk, forgedblk: 0 = ExecuteBlock+SubmitBlock, 1 = AddBlock (the sync path)
 }
 
 type c14aCase struct {
@@ -58,11 +59,18 @@ func genC14Ahead(t *rapid.T) c14aCase {
 	})
 	c.Blocks = rapid.SliceOfN(genBlk, 2, 7).Draw(t, "blocks")
 	genOp := rapid.Custom(func(t *rapid.T) c14aOp {
-		k := rapid.SampledFrom([]string{"hdr", "hdr", "hdr", "blk", "blk", "forged", "forged"}).Draw(t, "kind")
+		k := rapid.SampledFrom([]string{"hdr", "hdr", "hdr", "blk", "blk", "forged", "forged", "forgedblk", "forgedblk"}).Draw(t, "kind")
 		op := c14aOp{Kind: k}
 		if k == "forged" {
 			op.Set = rapid.IntRange(0, 3).Draw(t, "set")
 			op.Back = rapid.IntRange(1, 3).Draw(t, "back")
+		}
+		if k == "forgedblk" {
+			op.Set = rapid.IntRange(0, 4).Draw(t, "set") // 4 = no signature at all
+			op.Back = rapid.IntRange(1, 3).Draw(t, "back")
+		}
+		if k == "blk" || k == "forgedblk" {
+			op.Via = rapid.SampledFrom([]int{0, 1, 1}).Draw(t, "via")
 		}
 		return op
 	})
@@ -137,6 +145,43 @@ func runC14Ahead(ctx *ev.Ctx, c c14aCase) {
 				step, len(ht), hdrTip+1, len(sets[hdrTip+1]), hdrTip, blkTip)
 		}
 	}
+	// commit hands a block to the node through one of its two entry points
+	commit := func(b *types.Block, via int) error {
+		res, e := ch.Store.ExecuteBlock(b)
+		if e != nil {
+			return e
+		}
+		if via == 1 {
+			return ch.Store.AddBlock(b, res.MerkleRoot)
+		}
+		return ch.Store.SubmitBlock(b, res)
+	}
+	// otherSigners: the signer list of a re-signed header/block of height h (variants as documented at c14aOp.Set)
+	otherSigners := func(h int, op c14aOp) []*account.Account {
+		right := sets[h]
+		switch op.Set {
+		case 0:
+			j, seen := h, 0
+			for j > 1 && seen < op.Back {
+				j--
+				if c.Blocks[j-1].NewVals != nil {
+					seen++
+				}
+			}
+			return sets[j]
+		case 1:
+			return sets[K+1]
+		case 2:
+			var s []*account.Account
+			for i := 0; i < len(right); i++ {
+				s = append(s, world.Acct(44+i))
+			}
+			return s
+		case 3:
+			return right[:lworld.Quorum(len(right), true)-1]
+		}
+		return nil
+	}
 	for oi, op := range c.Ops {
 		step := fmt.Sprintf("op %d (%s)", oi, op.Kind)
 		switch op.Kind {
@@ -160,15 +205,11 @@ func runC14Ahead(ctx *ev.Ctx, c c14aCase) {
 			}
 			h := blkTip + 1
 			var e error
-			if p := ev.Catch(func() {
-				res, e2 := ch.Store.ExecuteBlock(blocks[h])
-				if e2 != nil {
-					e = e2
-					return
-				}
-				e = ch.Store.SubmitBlock(blocks[h], res)
-			}); p != "" {
+			if p := ev.Catch(func() { e = commit(blocks[h], op.Via) }); p != "" {
 				ctx.Failf("%s: block submission panicked: %s", step, p)
+			}
+			if op.Via == 1 {
+				ctx.Label("blk:via-AddBlock-header-cached")
 			}
 			if e != nil {
 				ctx.Failf("%s: block %d, signed by all %d validators in force at that height, was rejected (header tip %d, block tip %d): %v",
@@ -179,6 +220,47 @@ func runC14Ahead(ctx *ev.Ctx, c c14aCase) {
 				if c.Blocks[j-1].NewVals != nil {
 					aheadOverHandover = true // a block was committed while an announced hand-over lies between it and the header tip
 				}
+			}
+		case "forgedblk":
+			// the next block, same content, carrying another signer list (or none); its header may already be known to the node
+			if blkTip >= hdrTip {
+				continue // like "blk": only blocks whose (correctly signed) header the node already holds
+			}
+			h := blkTip + 1
+			right := sets[h]
+			signers := otherSigners(h, op)
+			hdr := cloneHeader(blocks[h].Header)
+			if len(signers) > 0 {
+				lworld.SignHeader(hdr, signers)
+			}
+			fb := &types.Block{Header: hdr, Transactions: blocks[h].Transactions}
+			rk := setKey(right)
+			members := true
+			for _, a := range signers {
+				if !rk[world.PubHex(a)] {
+					members = false
+				}
+			}
+			wantAccept := members && len(signers) >= lworld.Quorum(len(right), true)
+			known := h <= hdrTip
+			var e error
+			if p := ev.Catch(func() { e = commit(fb, op.Via) }); p != "" {
+				ctx.Failf("%s: block submission panicked: %s", step, p)
+			}
+			grew := int(ch.Store.GetCurrentBlockHeight()) == h
+			if grew && !wantAccept {
+				ctx.Failf("%s: block %d carrying %d signatures of set variant %d (all members of the set in force: %v, quorum %d of %d) was COMMITTED via entry %d (err=%v; its correctly signed header known to the node: %v; header tip %d, block tip %d)",
+					step, h, len(signers), op.Set, members, lworld.Quorum(len(right), true), len(right), op.Via, e, known, hdrTip, blkTip)
+			}
+			if !grew && wantAccept {
+				ctx.Failf("%s: block %d signed by %d members of the set in force (quorum %d) was not committed via entry %d: %v", step, h, len(signers), lworld.Quorum(len(right), true), op.Via, e)
+			}
+			if grew {
+				blkTip = h
+				ctx.Label("forgedblk:equivalent-accepted")
+			} else {
+				ctx.NonTrivial()
+				ctx.Label(fmt.Sprintf("forgedblk:rejected-although-header-cached:via%d", op.Via))
 			}
 		case "forged":
 			if hdrTip >= K {
